@@ -29,13 +29,25 @@ def c13(ctx):
         s = ctx.session(fl)
         r = s.run_seq('c13_wrap_seq', covers=[1])
         ctx.add(tag(r, mode='M1', flavor=fl, sample={'scenario': 'c13_wrap_seq', 'generation': 'symbolic', 'paths': r['paths']}))
-
+    # the wrap while a writer is inside the retired node (helping), context-bounded
+    cb_run(ctx, SPECS['nf_wrap'], 2 if ctx.tier == 'quick' else 3, features=('test-strategies',))
 
 
 def conc_run(ctx, spec, flavor='rel', features=(), **kw):
     import conc
     s = ctx.session(flavor, features)
     r = conc.run_conc(s, spec, **kw)
+    return ctx.add(tag(r, flavor=flavor, features=features))
+
+
+def cb_run(ctx, spec, K, flavor='rel', features=(), **kw):
+    """context-bounded interleaving with concrete memory (cb.py)"""
+    import cb
+    s = ctx.session(flavor, features)
+    r = cb.run_cb(s, spec, K=K, **kw)
+    ctx.bounds.setdefault('context_bounded_runs', []).append(
+        '%s: every schedule of its %d threads with at most %d preemptions at gated atomic steps (free switches when a thread finishes)' % (
+            spec['name'], len(spec['threads']), K))
     return ctx.add(tag(r, flavor=flavor, features=features))
 
 
@@ -105,6 +117,13 @@ SPECS = {
                'final': 'nf_final', 'covers': [13]},
     'nf_lin': {'name': 'nf_lin', 'setup': 'nf_setup', 'threads': [('nf_warm', 'nf_r_load_store_load'), ('nf_warm', 'nf_w_store_a2')],
                'final': 'nf_final', 'covers': [13]},
+    'nf_lin_rec': {'name': 'nf_lin_rec', 'setup': 'nf_setup', 'threads': [('nf_warm', 'nf_r_load_store_load_rec'), ('nf_warm', 'nf_w_store_a2')],
+                   'final': 'nf_final_lin', 'covers': [13]},
+    'nf_wrap': {'name': 'nf_wrap', 'setup': 'nf_setup', 'threads': [(None, 'nf_r_wrap_rec'), ('nf_warm', 'nf_w_store_a2')],
+                'final': 'nf_final_lin', 'covers': [13]},
+    'nf_churn': {'name': 'nf_churn', 'setup': 'nf_setup',
+                 'threads': [(None, 'nf_r1_load_store_exit'), ('nf_warm', 'nf_w_store_a2'), (None, 'nf_r3_load_rec')],
+                 'after': {3: 1}, 'final': 'nf_final_lin', 'covers': [13]},
     # --- two containers: writer of B walks the node of a reader of A which is on the fallback path
     'iso_b': {'name': 'iso_b', 'setup': 'cs_setup2', 'threads': [('cs_fill8_t1', 'cs_r_fallback'), (W, 'cs_w_store_b3')],
               'final': 'cs_final2_release', 'covers': [13, 14]},
@@ -149,6 +168,8 @@ def c03(ctx):
     ctx.bounds['oracle'] = 'writer publishes STARTED/DONE progress flags (SeqCst); a load returns a value index between DONE-before-the-call and STARTED-after-it; two loads of one thread never go backwards'
     ctx.outside += CONC_OUTSIDE
     conc_set(ctx, ['lin1'] if ctx.tier == 'quick' else ['lin1', 'lin1_fb'], timeout_s=1200)
+    # reader on the helping path doing load; store; load against a helping writer (NoFastSlots), context-bounded
+    cb_run(ctx, SPECS['nf_lin_rec'], 2 if ctx.tier == 'quick' else 3, features=TS)
 
 
 @prop('C04')
@@ -157,6 +178,10 @@ def c04(ctx):
     ctx.bounds['oracle'] = 'two concurrent swaps / cas+swap+store: every value put in comes out exactly once (returned handle or final content), returned handles own a full reference'
     ctx.outside += CONC_OUTSIDE
     conc_set(ctx, ['swap2'])
+    cb_run(ctx, SPECS['swap2'], 2)
+    cb_run(ctx, SPECS['cas_aba'], 2 if ctx.tier == 'quick' else 3)
+    if ctx.tier != 'quick':
+        cb_run(ctx, SPECS['cas3'], 2)
 
 
 @prop('C05')
@@ -164,10 +189,8 @@ def c05(ctx):
     ctx.bounds.update({'forms_of_current': ['&Arc', '&Guard', 'Guard', '*const T', '*mut T', 'None / null'], 'values': 'current, expected and new symbolic over a pool of 3 (+None)'})
     seq_run(ctx, 'c05_forms')
     seq_run(ctx, 'c05_forms_option')
-    if ctx.tier != 'quick':
-        ctx.bounds.update(CONC_BOUNDS)
-        ctx.outside += CONC_OUTSIDE
-        pass
+    # cas(obj0 -> obj1) racing swap(obj2); store(obj0): the A-B-A schedules need 3 preemptions
+    cb_run(ctx, SPECS['cas_aba'], 2 if ctx.tier == 'quick' else 3)
 
 
 @prop('C06')
@@ -176,8 +199,9 @@ def c06(ctx):
     ctx.bounds['oracle'] = 'two concurrent rcu "increments" end at +2, the returned previous values form the chain 0,1; sequential: re-entrant closure, retry (C14/C18 scenarios)'
     ctx.outside += CONC_OUTSIDE
     seq_run(ctx, 'c18_rcu', flavor='unw')
-    if ctx.tier != 'quick':
-        pass
+    # rcu racing store; store where the second store re-uses the memory of the value rcu started from
+    cb_run(ctx, SPECS['rcu_reuse'], 2 if ctx.tier == 'quick' else 3)
+    cb_run(ctx, SPECS['rcu2'], 1 if ctx.tier == 'quick' else 2)
 
 
 @prop('C12')
@@ -322,6 +346,8 @@ def c11(ctx):
     ctx.outside += ['a writer walking a node at the very moment its thread exits or is re-claimed (needs the concurrent mode with thread exit; see DESIGN.md)']
     seq_run(ctx, 'c11_churn_3' if ctx.tier == 'quick' else 'c11_churn_4', max_paths=100000)
     seq_run(ctx, 'c11_shutdown_ops')
+    # a thread exits and a new one starts while a helping writer is still inside the first one's node
+    cb_run(ctx, SPECS['nf_churn'], 2 if ctx.tier == 'quick' else 3, features=TS)
     if ctx.tier != 'quick':
         seq_run(ctx, 'c11_shutdown_ops', flavor='dbg')
 
